@@ -11,6 +11,7 @@ import (
 	"flag"
 	"fmt"
 	"os"
+	"runtime"
 	"strconv"
 
 	"verif/props"
@@ -64,6 +65,10 @@ func main() {
 	if id == "c07-clock" {
 		n, _ := strconv.Atoi(os.Getenv("VERIF_C07_CLOCK_N"))
 		os.Exit(props.C07ClockChild(seed, n, *tier == "thorough"))
+	}
+	if id == "c13-numcpu" {
+		fmt.Println(runtime.NumCPU())
+		os.Exit(0)
 	}
 	if id == "selftest" {
 		os.Exit(props.SelfTest(o))
